@@ -499,12 +499,6 @@ theorem hasItemConstraint_eq (s : Schema) (a : ItemAnnot) (ha : buildField s = .
   | decimal rules lr => simp only [buildField, Outcome.ok.injEq] at ha; subst ha; rfl
   | any od t lr => simp only [buildField, Outcome.ok.injEq] at ha; subst ha; rfl
 
-theorem isAny_norm (b : Bool) (s : Schema) : (normSchema b s).isAny = s.isAny := by
-  cases s <;> rfl
-
-theorem not_any_of_wf (s : Schema) (h : schemaWFField true s = true) : s.isAny = false := by
-  cases s <;> simp_all [schemaWFField, Schema.isAny]
-
 /-- without list rules on the (item) schema the writer emits no list annotation -/
 theorem buildField_list_none (s : Schema) (a : ItemAnnot) (ha : buildField s = .ok a)
     (h : s.listRules = none) : a.list = none := by
@@ -587,7 +581,6 @@ theorem field_roundtrip (p : Property) (h : WFField p = true) : roundtrip p = .o
     have hopt : opt = false := by simpa using harr
     subst hopt
     have hic := hasItemConstraint_eq s a ha
-    have hany : (normSchema true s).isAny = false := by rw [isAny_norm]; exact not_any_of_wf s hs
     have hrt := fun r vo hvo => buildSchema_rt true s hs a ha r vo none hvo rfl
     simp only [roundtrip, writeField, FieldSchema.item, FieldSchema.isArray, FieldSchema.isMap, Bool.not_false,
       Bool.true_and, ha, hreq, readField, Bool.false_and, Bool.false_eq_true, if_false, if_true]
@@ -599,11 +592,11 @@ theorem field_roundtrip (p : Property) (h : WFField p = true) : roundtrip p = .o
       | none =>
         cases hr : (Property.effRequired ⟨name, num, req, false, desc, .array s none sf⟩) <;>
           simp [topExts, fieldValidate, wrapArray, hv, fieldJ5, setRequired, Exts.repeatedC, h0, normField,
-            normFieldSchema, hr, hic, hany]
+            normFieldSchema, hr, hic]
       | some ar =>
         cases hr : (Property.effRequired ⟨name, num, req, false, desc, .array s (some ar) sf⟩) <;>
           simp [topExts, fieldValidate, wrapArray, hv, fieldJ5, setRequired, Exts.repeatedC, h0, normField,
-            normFieldSchema, hr, hic, hany]
+            normFieldSchema, hr, hic]
     | some ic =>
       have h0 := hrt none (some ic) (Or.inl hv.symm)
       simp only [extsOf, Option.map_some] at h0
@@ -611,11 +604,11 @@ theorem field_roundtrip (p : Property) (h : WFField p = true) : roundtrip p = .o
       | none =>
         cases hr : (Property.effRequired ⟨name, num, req, false, desc, .array s none sf⟩) <;>
           simp [topExts, fieldValidate, wrapArray, hv, fieldJ5, setRequired, Exts.repeatedC, h0, normField,
-            normFieldSchema, hr, hic, hany]
+            normFieldSchema, hr, hic]
       | some ar =>
         cases hr : (Property.effRequired ⟨name, num, req, false, desc, .array s (some ar) sf⟩) <;>
           simp [topExts, fieldValidate, wrapArray, hv, fieldJ5, setRequired, Exts.repeatedC, h0, normField,
-            normFieldSchema, hr, hic, hany]
+            normFieldSchema, hr, hic]
   | map s rules sf =>
     simp only [FieldSchema.item, FieldSchema.isArray, FieldSchema.isMap, Bool.false_or, Bool.true_and,
       Bool.not_true, Bool.false_and, Bool.or_false] at hs ha harr hml
@@ -624,7 +617,6 @@ theorem field_roundtrip (p : Property) (h : WFField p = true) : roundtrip p = .o
     have hr : ∀ r' : Option MapRules, Property.effRequired ⟨name, num, req, false, desc, .map s r' sf⟩ = req := by
       intro r'; simp [Property.effRequired, Property.primaryKey]
     have hic := hasItemConstraint_eq s a ha
-    have hany : (normSchema true s).isAny = false := by rw [isAny_norm]; exact not_any_of_wf s hs
     have hl : a.list = none := buildField_list_none s a ha (by simpa using hml)
     have hrt := fun r vo hvo => buildSchema_rt true s hs a ha r vo none hvo rfl
     simp only [roundtrip, writeField, FieldSchema.item, FieldSchema.isArray, FieldSchema.isMap, Bool.not_true,
@@ -637,11 +629,11 @@ theorem field_roundtrip (p : Property) (h : WFField p = true) : roundtrip p = .o
       | none =>
         cases req <;>
           simp [topExts, fieldValidate, wrapMap, hv, fieldJ5, setRequired, Exts.mapC, h0, normField,
-            normFieldSchema, hr, hic, hany]
+            normFieldSchema, hr, hic]
       | some ar =>
         cases req <;>
           simp [topExts, fieldValidate, wrapMap, hv, fieldJ5, setRequired, Exts.mapC, h0, normField,
-            normFieldSchema, hr, hic, hany]
+            normFieldSchema, hr, hic]
     | some ic =>
       have h0 := hrt none (some ic) (Or.inl hv.symm)
       simp only [extsOf, Option.map_some, hl] at h0
@@ -649,11 +641,11 @@ theorem field_roundtrip (p : Property) (h : WFField p = true) : roundtrip p = .o
       | none =>
         cases req <;>
           simp [topExts, fieldValidate, wrapMap, hv, fieldJ5, setRequired, Exts.mapC, h0, normField,
-            normFieldSchema, hr, hic, hany]
+            normFieldSchema, hr, hic]
       | some ar =>
         cases req <;>
           simp [topExts, fieldValidate, wrapMap, hv, fieldJ5, setRequired, Exts.mapC, h0, normField,
-            normFieldSchema, hr, hic, hany]
+            normFieldSchema, hr, hic]
 
 
 /-! ## the normal form means the same -/
